@@ -460,10 +460,18 @@ def num_kind(v):
     return type(v).__name__
 
 
+def kind_class(v):
+    """integral (bool or int) / float / complex.  bool and int are ONE class: the specification term is evaluated
+    after the neg-neg law was applied, and cancelling two signs in front of a comparison keeps the bool where the
+    real solver has computed -(-True) = 1 (an int of the same value); a literal is always a float."""
+    k = num_kind(v)
+    return "integral" if k in ("bool", "int") else k
+
+
 class Val:
     """outcome of a float computation; equality is equality of the VALUE (nan == nan) and of the numeric kind
-    (bool / int / float / complex; np.float64 counts as float).  Both sides apply the same operations to the same
-    operand kinds (the specification term is evaluated after the neg-neg law was applied), so kinds agree."""
+    class (integral = bool or int / float / complex; np.float64 counts as float).  Both sides apply the same
+    operations to the same operand kinds up to the neg-neg law (see kind_class), so kind classes agree."""
 
     def __init__(self, v):
         self.v = v
@@ -474,7 +482,7 @@ class Val:
         a, b = self.v, other.v
         if a is None or b is None:
             return a is None and b is None
-        if num_kind(a) != num_kind(b):
+        if kind_class(a) != kind_class(b):
             return False
         try:
             if a != a and b != b:
